@@ -41,7 +41,8 @@ FLAT = (".flatten", ".ravel")
 
 def check(run):
     from .c06 import depends_on
-    depends_on(run, "C18", {"E4"}, only=lambda rule, inst: "wrappers" in inst or "validators" in inst)  # no answer / encoding kept across calls
+    depends_on(run, "C18", {"E4"}, only=lambda rule, inst: "wrappers" in inst or "validators" in inst)
+    depends_on(run, "C15", {"NOMUT"})       # the feature-name list a wrapper shares with an explainer keeps its order  # no answer / encoding kept across calls
     _check_own(run)
     # COPY: a copied wrapper keeps its model function, its feature order and its label memory
     from .copylib import copy_protocol
